@@ -39,13 +39,38 @@ def compare(scripts):
     return bad
 
 
-def run(tier, seed):
+def check(tier, seed):
     rng = random.Random(seed * 31 + 5)
     scripts = [gen_script(rng) for _ in range(1500 if tier == "quick" else 15000)]
     bad = compare(scripts)
     info = {"level": "L-txn (real SodiumCtx enter/leave/pre_eot/pre_post/post with recording closures vs M_txn: depth, queue lengths, allow counter and execution log after every line)",
             "scripts": len(scripts), "disagreements": len(bad), "sample": " ; ".join(scripts[0])}
     viol = None
+    # implementation-only predicate (C14): at depth 0 nothing may be left queued and the collect counter is 0
+    import re as _re
+    text = "".join("\n".join(sc) + "\n---\n" for sc in scripts)
+    rc, hout, herr = run([HBIN, "txn"], stdin=text.encode(), timeout=600)
+    hl = hout.split("\n"); pos = 0; hit = None
+    for k, sc in enumerate(scripts):
+        prev_d = 0
+        for j, l in enumerate(sc):
+            o = hl[pos + j] if pos + j < len(hl) else ""
+            md = _re.match(r"d=(\d+) ", o)
+            m = _re.match(r"d=0 e=(\d+) p=(\d+) o=(\d+) a=(\d+)", o)
+            # only a line that really performed the outermost close (depth 1 -> 0) is judged
+            if m and prev_d == 1 and (l == "leave" or l.startswith("tclose")):
+                if int(m.group(2)) or int(m.group(3)) or int(m.group(4)):
+                    hit = (k, j, o); break
+            if md: prev_d = int(md.group(1))
+        if hit: break
+        pos += len(sc) + 1
+    info["impl_not_quiescent_after_close"] = 1 if hit else 0
+    if hit:
+        k, j, o = hit
+        cur = scripts[k][: j + 1]
+        viol = {"what": f"the context is not quiescent after the outermost close on the real SodiumCtx: `{o}` (work left queued / counter not reset)", "found_input": True, "signature": " ; ".join(cur),
+                "replay_text": f"# L-txn script on the real SodiumCtx: after the last line the context reports `{o}` although no transaction is open\n" + "\n".join(cur) + "\n"}
+        return info, viol
     if bad:
         k, j, h, m = bad[0]
         s = scripts[k][: j + 1]
